@@ -145,6 +145,10 @@ def gen_specs(run):
         ("257_members_256_statements", [a] * 256 + [ns_(a)]), ("256_members_257_transcripts", [a] * 256 + [{"ctx": a["ctx"]}]),
         ("256_members_512_transcripts", [a] * 256 + [{"ctx": a["ctx"]}] * 256),
     ]
+    # members that disagree on the Pedersen generators must make the batch fail whatever their position and size (also the strictly largest, not first)
+    for sp in gen.mixed_generator_batches(rng, quick, "c03g"):
+        sp["_mixed"] = True
+        specs.append(sp)
     for name, vm in shapes:
         specs.append({"id": f"c03-shape-{name}", "group": "fm", "members": [mem, mem2, mem3, mem4, mem5],
                       "verifies": [{"mode": "VerifyOnly", "vmembers": vm, "_role": "shape"}] + [{"mode": "VerifyOnly", "vmembers": [x], "log": False, "_role": "single"} for x in (a, b2, c3, d4, e5)],
@@ -154,6 +158,15 @@ def gen_specs(run):
 
 def oracle(run, s, o):
     rp = {"kind": "session", "spec": sessions.strip(s)}
+    if s.get("_mixed"):
+        for vi, ((tag, want_ok), vo) in enumerate(zip(s["_tags"], o["verifies"])):
+            run.count(["mixed-gens", tag.split(":")[0][:40], vo["result"].split(":")[0]], {"case": tag, "result": vo["result"][:60]})
+            run.bump("mixed generator batches")
+            if want_ok and vo["result"] != "ok":
+                run.violation(f"control batch refused ({tag}): {vo['result'][:80]}", dict(rp, verify=vi))
+            if not want_ok and vo["result"] == "ok":
+                run.violation(f"batch accepted although its members disagree on the generators ({tag}): not every member verifies", dict(rp, verify=vi))
+        return
     if "_shape" in s:
         v = o["verifies"][0]
         singles = [x["result"] for x in o["verifies"][1:]]
